@@ -44,8 +44,10 @@ class Rule:
         self.minimum = minimum
         self.maximum = maximum
 
-    def apply(self, text):
+    def apply(self, text, tolerant=False):
         new, n = self.fn(text)
+        if tolerant:
+            return new, n
         if n < self.minimum:
             raise LoweringError("rule %s [%s] fired %d times, needs >= %d" %
                                 (self.kind, self.desc, n, self.minimum))
@@ -378,9 +380,9 @@ def insert_loop_contracts(body, loops_spec):
     return ''.join(out), len(found)
 
 
-def apply_rules(body, rules):
+def apply_rules(body, rules, tolerant=False):
     fired = []
     for r in rules:
-        body, n = r.apply(body)
+        body, n = r.apply(body, tolerant)
         fired.append(dict(rule=r.kind, what=r.desc, fired=n))
     return body, fired
